@@ -425,8 +425,11 @@ class Emitter:
                 idx = i
                 break
         r = t[:idx].strip() if idx is not None else t
-        if r in ('auto', 'decltype(auto)') or 'auto' == r:
-            r = self.deduced_return(fn) or 'void'
+        isref = r.endswith('&')
+        if r in ('auto', 'decltype(auto)') or 'auto' in re.split(r'[^A-Za-z_]+', r) or "'" in r:
+            # deduced (or unprintable) return type: take the type of the returned expression
+            d = self.deduced_return(fn) or 'void'
+            r = d + (' &' if (isref and not d.strip().endswith('&')) else '')
         return r
 
     def deduced_return(self, fn):
